@@ -723,6 +723,13 @@ class Interp(object):
             if has_break:
                 st.add_lit(('broke', lid), False)
             out.extend(self.exec_block(node.orelse, st, fctx))
+        elif not has_break:
+            # `while True` left only through return/raise inside the body: keep one
+            # top-level path that carries the loop region
+            exits = [sp for sp in subs if sp.status in ('return', 'raise')]
+            st.status = 'return' if any(sp.status == 'return' for sp in exits) or not exits else 'raise'
+            st.value = ('LOOPEXIT', lid)
+            out.append(st)
         return out
 
     def x_Break(self, node, st, fctx):
